@@ -40,20 +40,23 @@ fn sdi(data: &[u8]) -> Vec<u8> {
 
 /// the slow-path letters that may be packed two to a frame (BFS only): the ten slow-path letters of EVENTS and a
 /// Set Error Info carrying a non-zero code
-pub const INNER: [usize; 11] = [0, 1, 2, 3, 4, 5, 6, 7, 8, 9, 12];
+pub const INNER: [usize; 12] = [0, 1, 2, 3, 4, 5, 6, 7, 8, 9, 12, 13];
 
-/// number of events explored per state by the BFS: the 12 letters, letter 12 (set-error-info with a non-zero code)
-/// and every ordered pair of INNER letters packed into ONE frame
+/// first event id of the packed frames (letters 0..SINGLE-1 are single PDUs)
+pub const SINGLE: usize = 14;
+
+/// number of events explored per state by the BFS: the 12 letters, letter 12 (set-error-info with a non-zero code),
+/// letter 13 (deactivate-all naming another share id) and every ordered pair of INNER letters packed into ONE frame
 pub fn n_bfs_events() -> usize {
-    13 + INNER.len() * INNER.len()
+    SINGLE + INNER.len() * INNER.len()
 }
 
 /// letters carried by an event: one for 0..=12, two for a packed frame
 pub fn decompose(ev: usize) -> Vec<usize> {
-    if ev <= 12 {
+    if ev < SINGLE {
         vec![ev]
     } else {
-        let k = ev - 13;
+        let k = ev - SINGLE;
         vec![INNER[k / INNER.len()], INNER[k % INNER.len()]]
     }
 }
@@ -62,6 +65,7 @@ pub fn event_name(ev: usize) -> String {
     match ev {
         0..=11 => EVENTS[ev].to_string(),
         12 => "set-error-info(non-zero)".to_string(),
+        13 => "deactivate-all(naming another share id)".to_string(),
         _ => {
             let d = decompose(ev);
             format!("one frame [{} + {}]", event_name(d[0]), event_name(d[1]))
@@ -81,6 +85,7 @@ fn event_inner(ev: usize, sid: u32) -> Vec<u8> {
         7 => share::set_error_info(sid, 1002, 0),
         8 => share::save_session_info(sid, 1002),
         9 => share::deactivate_all(sid, 1002),
+        13 => share::deactivate_all(sid ^ 0x0001_0001, 1002),
         _ => share::set_error_info(sid, 1002, 5),
     }
 }
@@ -249,8 +254,12 @@ pub fn step(l: &mut Live, ev: usize) -> Result<Key, (String, String)> {
             let x = if e == 0 { SHARE_A } else { SHARE_B };
             return vec![(1, x, finalization(x))];
         }
-        // a Set Error Info is a Set Error Info whatever its code
-        let e = if e == 12 { 7 } else { e };
+        // a Set Error Info is a Set Error Info whatever its code; a deactivate-all ends the share whatever id it names
+        let e = match e {
+            12 => 7,
+            13 => 9,
+            _ => e,
+        };
         permitted(st, e).into_iter().map(|s2| (s2, sh, vec![])).collect()
     };
     let letters = decompose(ev);
@@ -485,7 +494,20 @@ impl C12Histories {
     pub fn blocks_for(tier: Tier) -> Vec<(Vec<u8>, usize)> {
         let reactivated: Vec<u8> = ACT_A.iter().chain([9u8].iter()).chain(ACT_B.iter()).copied().collect();
         let d = if tier == Tier::Quick { [5, 4, 3] } else { [6, 5, 4] };
-        vec![(vec![], d[0]), (ACT_A.to_vec(), d[1]), (reactivated, d[2])]
+        let mut v = vec![(vec![], d[0]), (ACT_A.to_vec(), d[1]), (reactivated, d[2])];
+        // many activation / deactivation cycles on one connection (state that only accumulates shows late), each
+        // followed by every single letter, and by every pair after 40 cycles
+        for cycles in [3usize, 8, 16, 33, 40, 70] {
+            let mut p: Vec<u8> = vec![];
+            for k in 0..cycles {
+                p.extend(if k % 2 == 0 { ACT_A.iter() } else { ACT_B.iter() });
+                if k + 1 < cycles {
+                    p.push(9);
+                }
+            }
+            v.push((p, if cycles == 40 { 2 } else { 1 }));
+        }
+        v
     }
     fn history(&self, idx: u64) -> Vec<u8> {
         let mut i = idx;
@@ -536,7 +558,7 @@ impl Prop for C12Histories {
         json!({"idx": idx, "history": h.iter().map(|e| EVENTS[*e as usize]).collect::<Vec<_>>()})
     }
     fn rule(&self) -> String {
-        "every history of server PDUs of length <= depth over the 12-letter alphabet, replayed on a fresh real client with an input attempt (write and try_write) after every step, from three starting points: the fresh client (depth 5, 6 in thorough), a client that completed an activation (depth 4 / 5), and a client that completed an activation, was deactivated and completed a second activation with another share id (depth 3 / 4); the prefixes are executed and checked like any other step; non-trivial: histories in which the input window opens at least once".into()
+        "every history of server PDUs of length <= depth over the 12-letter alphabet, replayed on a fresh real client with an input attempt (write and try_write) after every step, from three starting points: the fresh client (depth 5, 6 in thorough), a client that completed an activation (depth 4 / 5), and a client that completed an activation, was deactivated and completed a second activation with another share id (depth 3 / 4); and clients that went through 3, 8, 16, 33, 40 or 70 activation / deactivation cycles (depth 1; 2 after 40 cycles); the prefixes are executed and checked like any other step; non-trivial: histories in which the input window opens at least once".into()
     }
     fn assumptions(&self) -> Vec<String> {
         vec![]
